@@ -1,0 +1,18 @@
+//go:build verif
+
+package node
+
+import "github.com/siyul-park/uniflow/pkg/packet"
+
+// VerifC05Tracer returns the tracer of a OneToOne / OneToMany / ManyToOne node (nil otherwise).
+func VerifC05Tracer(n Node) *packet.Tracer {
+	switch n := n.(type) {
+	case *OneToOneNode:
+		return n.tracer
+	case *OneToManyNode:
+		return n.tracer
+	case *ManyToOneNode:
+		return n.tracer
+	}
+	return nil
+}
